@@ -367,11 +367,34 @@ func ruleBlockWriterHash(c *Ctx, r *Report, prefix string) {
 func ruleBlockFilters(c *Ctx, r *Report, prefix string) {
 	rule := prefix + "WR-DICT-BLOCK"
 	nbw := c.Func("", "WriterConfig.newBlockWriter")
-	filters := c.Func("", "WriterConfig.filters")
+	filters := c.funcQuiet("", "WriterConfig.filters")
 	nfw := c.Func("", "WriterConfig.newFilterWriteCloser")
 	fFilters := c.Field("", "blockWriter.filters")
 	fDictCap := c.Field("", "WriterConfig.DictCap")
-	if nbw == nil || filters == nil || nfw == nil || fFilters == nil || fDictCap == nil {
+	if nbw == nil || nfw == nil || fFilters == nil || fDictCap == nil {
+		return
+	}
+	if filters == nil {
+		// filters() was inlined: the filter list is built in newBlockWriter itself from the
+		// receiver's DictCap, stored in the block writer and handed to the filter chain
+		okBuild, okStore, okPass := false, false, false
+		for _, b := range c.GB(nbw) {
+			for _, ins := range b.Instrs {
+				if st, ok := ins.(*ssa.Store); ok {
+					if fa, isFA := st.Addr.(*ssa.FieldAddr); isFA && fieldOfAddr(fa).Name() == "dictCap" && isFieldLoadOf(st.Val, fDictCap) {
+						okBuild = true
+					}
+				}
+				if _, ok := storeToField(ins, fFilters); ok {
+					okStore = true
+				}
+				if call, ok := callTo(ins, nfw); ok && len(call.Call.Args) == 3 && isFieldLoadOf(call.Call.Args[2], fFilters) {
+					okPass = true
+				}
+			}
+		}
+		r.Check(okBuild && okStore && okPass, rule, FnName(nbw), c.Pos(nbw.Pos()), "every block builds its filter list from the configuration in force and encodes with that same list",
+			"newBlockWriter does not build the block's filter list from WriterConfig.DictCap and hand the same list to the filter chain")
 		return
 	}
 	// blockWriter.filters = c.filters() on the receiver of newBlockWriter, evaluated per block
